@@ -19,7 +19,7 @@ use proptest::prelude::*;
 use proptest::strategy::BoxedStrategy;
 use serde_json::{json, Value};
 
-pub const DIMS: [&str; 11] = ["capacity", "id", "alpha", "byte-value", "datum-length", "group-shape", "edges", "char", "vertex-count", "unread-count", "big-image"];
+pub const DIMS: [&str; 12] = ["capacity", "id", "alpha", "byte-value", "datum-length", "group-shape", "edges", "char", "vertex-count", "unread-count", "alias-pair", "big-image"];
 
 pub struct Scenario {
     pub cfg: Cfg,
@@ -90,6 +90,8 @@ pub fn points(dim: &str, thorough: bool, prop: &str) -> Vec<u64> {
         }
         // a group of m members, u of them holding unread data; put after/before binding; x = variant*1024 + m*32 + u
         "unread-count" => (0..4u64).flat_map(|var| (2..=16u64).flat_map(move |m| (0..=m).map(move |u| var * 1024 + m * 32 + u))).collect(),
+        // two ids congruent modulo 2^k (k = 6..=12), 1..=3 multiples apart: x = k*64 + m*8 + which y
+        "alias-pair" => (6..=12u64).flat_map(|k| (1..=3u64).flat_map(move |m| (0..2u64).map(move |w| k * 64 + m * 8 + w))).collect(),
         // images above 64 MiB: a 1.5 M-slot store; 5 x 14 MiB of data; 70 x 1 MiB of data
         "big-image" => if prop == "C08" { vec![0, 1, 2] } else { vec![] },
         "char" => {
@@ -110,6 +112,12 @@ const N_TABLE: [usize; 9] = [1, 2, 3, 4, 8, 15, 16, 17, 32];
 
 /// The scenario of one point.
 pub fn build(dim: &str, x: u64) -> Option<Scenario> {
+    build_for(dim, x, false)
+}
+
+/// `drain`: for the checks of the collector (C01..C05) the alias-pair scenario goes on to
+/// collect the group and to re-create the two aliasing ids
+pub fn build_for(dim: &str, x: u64, drain: bool) -> Option<Scenario> {
     let mut calls = vec![];
     let cfg;
     match dim {
@@ -191,7 +199,7 @@ pub fn build(dim: &str, x: u64) -> Option<Scenario> {
         }
         "group-shape" => {
             let (g, m) = ((x / 32) as usize, (x % 32) as usize);
-            let cap = g * m + 3;
+            let cap = g * m + 9;
             cfg = Cfg { n: 2, cap };
             for i in 0..g {
                 let base = i * m;
@@ -269,6 +277,23 @@ pub fn build(dim: &str, x: u64) -> Option<Scenario> {
                 calls.push(Call::Data(m - 1 - v));
             }
         }
+        "alias-pair" => {
+            let (k, m, w) = (x / 64, (x % 64) / 8, x % 8);
+            let step = (1usize << k) * m as usize;
+            let y = if w == 0 { 4 } else { (1usize << k) - 3 };
+            let (r, xx, z) = (1usize, y + step, y + 1);
+            cfg = Cfg { n: 2, cap: xx + 3 };
+            let s = |t: &str| Lab::Str(t.into());
+            calls.extend([
+                Call::Add(r), Call::Add(xx), Call::Add(y), Call::Add(z),
+                bind(r, xx, s("aa")), bind(r, y, s("bb")), bind(y, z, s("cc")), bind(xx, z, s("dd")),
+                Call::Put(z, pat(9, 31)), Call::Put(xx, vec![1]),
+                Call::Kids(r), Call::Kid(xx, s("dd")), Call::Kid(y, s("cc")),
+            ]);
+            if drain {
+                calls.extend([Call::Data(xx), Call::Data(z), Call::Add(y), Call::Add(xx), Call::Kids(y), Call::Kids(xx), Call::Add(z), Call::Kids(z)]);
+            }
+        }
         "big-image" => match x {
             0 => {
                 cfg = Cfg { n: 1, cap: 1_500_000 };
@@ -309,7 +334,39 @@ pub fn build(dim: &str, x: u64) -> Option<Scenario> {
         }
         _ => return None,
     }
+    if matches!(dim, "capacity" | "id" | "alpha" | "group-shape" | "edges" | "char" | "alias-pair") && !(dim == "alias-pair" && drain) {
+        feature_tail(cfg, &mut calls);
+    }
     Some(Scenario { cfg, calls })
+}
+
+/// Every scenario with room for them also carries the small oddities that tend to hide a
+/// second condition: an isolated vertex with an EMPTY unread datum, one whose empty datum
+/// was read, and a grouped leaf with an empty unread datum.
+fn feature_tail(cfg: Cfg, calls: &mut Vec<Call>) {
+    let mut r = Runner::new(cfg);
+    for c in calls.iter() {
+        if r.valid(c) {
+            r.step(c);
+        }
+    }
+    let free = r.m.absent_ids();
+    if free.len() < 6 {
+        return;
+    }
+    // the highest absent ids, so that what the allocator hands out below stays as it was
+    let e: Vec<usize> = free.iter().rev().take(4).copied().collect();
+    let tail = [
+        Call::Add(e[0]), Call::Put(e[0], vec![]),
+        Call::Add(e[1]), Call::Put(e[1], vec![]), Call::Data(e[1]),
+        Call::Add(e[2]), Call::Add(e[3]), bind(e[2], e[3], Lab::Str("tail".into())), Call::Put(e[3], vec![]),
+    ];
+    for c in tail {
+        if r.valid(&c) {
+            r.step(&c);
+            calls.push(c);
+        }
+    }
 }
 
 /// the calls followed by the drain epilogue as explicit calls (for checkers that take a
@@ -347,8 +404,8 @@ fn script_of(calls: &[Call]) -> Option<(String, usize, Vec<Call>)> {
                 }
                 text.push_str(&format!("BIND(ν{a}, ν{b}, {});\n", l.text()));
             }
-            // the script grammar has no empty datum
-            Call::Put(_, d) if d.is_empty() => return None,
+            // the script grammar has no empty datum: such a put is left out on both sides
+            Call::Put(_, d) if d.is_empty() => continue,
             Call::Put(v, d) => text.push_str(&format!("PUT(ν{v}, {});\n", crate::calls::hexs(d))),
             _ => continue,
         }
@@ -364,7 +421,7 @@ pub fn check_point(prop: &'static str, dim: &str, x: u64) -> Option<Failure> {
 
 /// None = the point cannot be expressed for this property (skipped and counted)
 pub fn judge_point(prop: &'static str, dim: &str, x: u64) -> Option<Option<Failure>> {
-    let mut s = build(dim, x)?;
+    let mut s = build_for(dim, x, matches!(prop, "C01" | "C02" | "C03" | "C04" | "C05" | "C06"))?;
     if dim == "big-image" {
         return Some(big_image(&s, x));
     }
@@ -423,7 +480,11 @@ pub fn judge_point(prop: &'static str, dim: &str, x: u64) -> Option<Option<Failu
         "C13" => {
             let r = digraph::replay_calls(s.cfg, &s.calls)?;
             let mut st = digraph::Stats::default();
-            digraph::check_slices(&r, x as u16, 128, &mut st).or_else(|| digraph::check_slices(&r, 0, 255, &mut st))
+            // all edges, then eight half-accepting predicates
+            // (rate % 3: 0 = every edge accepted, 2 = none, 1 = about half, by a hash of seed and edge)
+            digraph::check_slices(&r, 0, 0, &mut st)
+                .or_else(|| digraph::check_slices(&r, 0, 2, &mut st))
+                .or_else(|| (0..8u16).find_map(|k| digraph::check_slices(&r, (x as u16).wrapping_mul(8).wrapping_add(k), 1, &mut st)))
         }
         "C18" => {
             let r = digraph::replay_calls(s.cfg, &s.calls)?;
@@ -494,7 +555,7 @@ pub fn dims_for(prop: &str) -> Vec<&'static str> {
             // exports are defined for labels that need no escaping; the length sweep of C08/C18 exists already
             ("C08" | "C18", "datum-length") => false,
             // every cut point of every image: keep the images small
-            ("C09", "id") => false,
+            ("C09", "id" | "alias-pair") => false,
             (p, "big-image") => p == "C08",
             _ => true,
         })
